@@ -10,6 +10,7 @@ Record sbus := mkSbus { sb_mem : Mem.t; sb_rom : N -> N; sb_ints : ints }.
 Definition sb_rd (b : sbus) (a : N) : sbus * N :=
   (b,
    if a <? 32768 then sb_rom b a
+   else if (40960 <=? a) && (a <? 49152) then 255   (* ROM-only cartridge: no external RAM *)
    else if (57344 <=? a) && (a <? 65024) then Mem.get (sb_mem b) (a - 8192)
    else if (65184 <=? a) && (a <? 65280) then 0
    else if a =? 65295 then ints_read_if (sb_ints b)
@@ -18,6 +19,7 @@ Definition sb_rd (b : sbus) (a : N) : sbus * N :=
 
 Definition sb_wr (b : sbus) (a v : N) : sbus :=
   if a <? 32768 then b
+  else if (40960 <=? a) && (a <? 49152) then b
   else if (57344 <=? a) && (a <? 65024) then mkSbus (Mem.set (sb_mem b) (a - 8192) v) (sb_rom b) (sb_ints b)
   else if (65184 <=? a) && (a <? 65280) then b
   else if a =? 65295 then mkSbus (sb_mem b) (sb_rom b) (ints_write_if (sb_ints b) v)
@@ -34,7 +36,15 @@ Definition sb_request (b : sbus) (m : N) : sbus := mkSbus (sb_mem b) (sb_rom b) 
 
 (* ROM contents of the synthetic ROM-only cartridge used by the CPU scripts (header bytes 0x147-0x149 are 0) *)
 Definition test_rom (a : N) : N :=
-  if (327 <=? a) && (a <=? 329) then 0 else N.land (a * 31 + (a / 256) * 7 + 5) 255.
+  if (327 <=? a) && (a <=? 329) then 0
+  else if (64 <=? a) && (a <? 104) then
+    (* interrupt handlers: INC B / C / D / E / H ; RETI ; NOPs *)
+    match a mod 8 with
+    | 0 => match a / 8 with 8 => 4 | 9 => 12 | 10 => 20 | 11 => 28 | _ => 36 end
+    | 1 => 217
+    | _ => 0
+    end
+  else N.land (a * 31 + (a / 256) * 7 + 5) 255.
 
 Definition sb_init : sbus := mkSbus (Mem.empty 0) test_rom ints_init.
 
